@@ -32,8 +32,10 @@ class AstGen:
     def chance(self, p): return self.r.random() < p
 
     # identifier shapes a scanner or a cache can get wrong: no letter at all, one character, mixed case, names that are prefixes
-    # of one another (names beginning with T or F are left out: the recorded finding D14)
-    ODD_NAMES = ['_', '_1', '__', '_9x', 'n', 'nn', 'nnn', 'a', 'ab', 'abc', 'I', 'l1', 'O0', 'x_', 'Ab', 'aB9', 'zz_top', 'e', 'E2', 'q']
+    # of one another (upper-case prefixes and extensions of TRUE / FALSE are left out: the recorded finding D14; their mixed-case look-alikes and
+    # names that look like command words are in)
+    ODD_NAMES = ['_', '_1', '__', '_9x', 'n', 'nn', 'nnn', 'a', 'ab', 'abc', 'I', 'l1', 'O0', 'x_', 'Ab', 'aB9', 'zz_top', 'e', 'E2', 'q',
+                 'True', 'Falsey', 'TrueCount', 'tRUE', 'false1', 'true', 'If', 'while_', 'REPEATs', 'elsey', 'Run', 'string', 'var']
 
     def fresh(self, sc, p=None):
         self.n += 1
